@@ -362,4 +362,241 @@ example : exU.FeasibleRelaxed (transportAlong exPerm (concatVec exXs)) ∧
   exact ⟨g1, g2, g3⟩
 end Example
 
+/-! ## The one-sided certificate: split never exceeds unsplit
+
+For storages whose start level equals their end level the interval problems are MORE restrictive than the unsplit
+problem (every interval has to end at the start level), so the witness above is false.  `splitLeWitness U ps perm
+lams` certifies the inclusion that remains: same objective, bounds of the unsplit problem not tighter, and every
+row of the unsplit problem is an explicitly given combination (`lams`) of rows of the interval problems.  The
+multipliers are found numerically by the harness, rounded to rationals and CHECKED exactly by the compiled model;
+the theorems say what a true witness means. -/
+
+/-- the content of a true one-sided witness -/
+theorem le_witness_parts (U : Problem) (ps : List Problem) (perm : List Nat) (lams : List (List Rat))
+    (h : splitLeWitness U ps perm lams = true) :
+    WfIdx U ∧ (∀ p ∈ ps, WfIdx p) ∧ IsPerm perm U.n ∧ LeSpec (U.renameAlong perm) (blockSum ps) := by
+  unfold splitLeWitness at h
+  simp only [Bool.and_eq_true, decide_eq_true_eq] at h
+  obtain ⟨⟨⟨⟨⟨⟨⟨⟨⟨h1, h2⟩, h3⟩, _⟩, h5⟩, h6⟩, h7⟩, h8⟩, h9⟩, h10⟩ := h
+  exact ⟨wfIdx_spec U h1, fun p hp => wfIdx_spec p (List.all_eq_true.mp h2 p hp), isPermOf_spec perm U.n h3,
+    ⟨h5, h6, h7, h8, fun x hx => rows_implied _ _ lams h9 h10 x hx⟩⟩
+
+/-- **Every split-feasible point is unsplit-feasible.**  Under a true one-sided witness a feasible point of the
+    block sum of the interval problems, transported along the matching of the variables, is a feasible point of the
+    unsplit problem (with and without the integrality conditions) — it satisfies ALL restrictions and bounds of the
+    unsplit problem on the original grid — and has the same objective value. -/
+theorem split_le_witness_feasible (U : Problem) (ps : List Problem) (perm : List Nat) (lams : List (List Rat))
+    (h : splitLeWitness U ps perm lams = true) (x : Vec) :
+    ((blockSum ps).Feasible x → U.Feasible (transportAlong perm x)) ∧
+    ((blockSum ps).FeasibleRelaxed x → U.FeasibleRelaxed (transportAlong perm x)) ∧
+    (blockSum ps).value x = U.value (transportAlong perm x) := by
+  obtain ⟨hw, _, hp, hs⟩ := le_witness_parts U ps perm lams h
+  have hlu : (U.renameAlong perm).u.length = (U.renameAlong perm).l.length := by
+    simp [Problem.renameAlong]
+  refine ⟨fun hx => ?_, fun hx => ?_, ?_⟩
+  · exact (renameAlong_feasible U hp hw x).mp (hs.feasible hlu x hx)
+  · exact (renameAlong_relaxed U hp hw.l x).mp (hs.relaxed hlu x hx)
+  · rw [← hs.value x, renameAlong_value U hp x]
+
+/-- **Split never exceeds unsplit** (no existence of optima assumed): under a true one-sided witness every upper
+    bound of the values of the unsplit problem is an upper bound of the values of the block sum of the interval
+    problems. -/
+theorem split_le_unsplit (U : Problem) (ps : List Problem) (perm : List Nat) (lams : List (List Rat))
+    (h : splitLeWitness U ps perm lams = true) (B : Rat) (hU : ∀ y, U.Feasible y → U.value y ≤ B) :
+    ∀ x, (blockSum ps).Feasible x → (blockSum ps).value x ≤ B := by
+  intro x hx
+  obtain ⟨h1, _, h3⟩ := split_le_witness_feasible U ps perm lams h x
+  rw [h3]
+  exact hU _ (h1 hx)
+
+theorem split_le_unsplit_relaxed (U : Problem) (ps : List Problem) (perm : List Nat) (lams : List (List Rat))
+    (h : splitLeWitness U ps perm lams = true) (B : Rat) (hU : ∀ y, U.FeasibleRelaxed y → U.value y ≤ B) :
+    ∀ x, (blockSum ps).FeasibleRelaxed x → (blockSum ps).value x ≤ B := by
+  intro x hx
+  obtain ⟨_, h2, h3⟩ := split_le_witness_feasible U ps perm lams h x
+  rw [h3]
+  exact hU _ (h2 hx)
+
+/-! interval solutions, concatenated -/
+
+theorem concat_relaxed (ps : List Problem) (hw : ∀ p ∈ ps, WfIdx p) (xs : List (List Rat))
+    (hlen : xs.length = ps.length) (hn : ∀ i, (h : i < ps.length) → (xs.getD i []).length = (ps[i]).n)
+    (hfeas : ∀ i, (h : i < ps.length) → (ps[i]).FeasibleRelaxed (vecOfList (xs.getD i []))) :
+    (blockSum ps).FeasibleRelaxed (concatVec xs) := by
+  have hbw : ∀ p ∈ ps, C03.BoundsWF p := fun p hp => ⟨(hw p hp).l, (hw p hp).u⟩
+  rw [C03.blockSum_feasible ps hbw]
+  intro i hi
+  exact (hw _ (List.getElem_mem hi)).relaxed_congr _ _ (concat_slice ps xs hlen hn i hi) (hfeas i hi)
+
+theorem concat_feasible (ps : List Problem) (hw : ∀ p ∈ ps, WfIdx p) (xs : List (List Rat))
+    (hlen : xs.length = ps.length) (hn : ∀ i, (h : i < ps.length) → (xs.getD i []).length = (ps[i]).n)
+    (hfeas : ∀ i, (h : i < ps.length) → (ps[i]).Feasible (vecOfList (xs.getD i []))) :
+    (blockSum ps).Feasible (concatVec xs) := by
+  rw [blockSum_feasible_bool ps hw]
+  intro i hi
+  exact (hw _ (List.getElem_mem hi)).feasible_congr _ _ (concat_slice ps xs hlen hn i hi) (hfeas i hi)
+
+theorem concat_value (ps : List Problem) (xs : List (List Rat))
+    (hlen : xs.length = ps.length) (hn : ∀ i, (h : i < ps.length) → (xs.getD i []).length = (ps[i]).n) :
+    (blockSum ps).value (concatVec xs) =
+      ((List.range ps.length).map fun i => (ps.getD i default).value (vecOfList (xs.getD i []))).sum := by
+  rw [C03.blockSum_value]
+  congr 1
+  apply List.map_congr_left
+  intro i hi
+  have hi' : i < ps.length := by simpa using hi
+  have h2 : ps.getD i default = ps[i] := by simp [List.getD_eq_getElem?_getD, hi']
+  rw [h2]
+  exact (value_congr (ps[i]) _ _ (concat_slice ps xs hlen hn i hi')).symm
+
+/-- **The split solution is an unsplit-feasible dispatch worth the sum of the interval values, and that sum never
+    exceeds the unsplit optimum (LP case).**  Under a true one-sided witness: if every interval solution `xs[i]` is
+    feasible for its interval problem, the concatenation (`np.hstack`), transported along the matching of the
+    variables, satisfies every restriction and bound of the UNSPLIT problem, its unsplit value is the sum of the
+    interval values, and this sum is below every upper bound of the unsplit value set — in particular for the
+    interval OPTIMA (`EAO.C03.blockSum_optimal`: their sum is the split optimum): split optimum ≤ unsplit optimum. -/
+theorem split_solution_le_unsplit (U : Problem) (ps : List Problem) (perm : List Nat) (lams : List (List Rat))
+    (h : splitLeWitness U ps perm lams = true) (xs : List (List Rat)) (hlen : xs.length = ps.length)
+    (hn : ∀ i, (h : i < ps.length) → (xs.getD i []).length = (ps[i]).n)
+    (hfeas : ∀ i, (h : i < ps.length) → (ps[i]).FeasibleRelaxed (vecOfList (xs.getD i []))) :
+    U.FeasibleRelaxed (transportAlong perm (concatVec xs)) ∧
+    U.value (transportAlong perm (concatVec xs)) =
+      ((List.range ps.length).map fun i => (ps.getD i default).value (vecOfList (xs.getD i []))).sum ∧
+    ∀ B, (∀ y, U.FeasibleRelaxed y → U.value y ≤ B) →
+      ((List.range ps.length).map fun i => (ps.getD i default).value (vecOfList (xs.getD i []))).sum ≤ B := by
+  obtain ⟨_, hwp, _, _⟩ := le_witness_parts U ps perm lams h
+  have hxB := concat_relaxed ps hwp xs hlen hn hfeas
+  obtain ⟨_, h2, h3⟩ := split_le_witness_feasible U ps perm lams h (concatVec xs)
+  have hv := concat_value ps xs hlen hn
+  refine ⟨h2 hxB, by rw [← h3, hv], fun B hB => ?_⟩
+  rw [← hv]
+  exact split_le_unsplit_relaxed U ps perm lams h B hB _ hxB
+
+/-- the same with boolean variables (interval solutions feasible including the integrality conditions) -/
+theorem split_solution_le_unsplit_bool (U : Problem) (ps : List Problem) (perm : List Nat) (lams : List (List Rat))
+    (h : splitLeWitness U ps perm lams = true) (xs : List (List Rat)) (hlen : xs.length = ps.length)
+    (hn : ∀ i, (h : i < ps.length) → (xs.getD i []).length = (ps[i]).n)
+    (hfeas : ∀ i, (h : i < ps.length) → (ps[i]).Feasible (vecOfList (xs.getD i []))) :
+    U.Feasible (transportAlong perm (concatVec xs)) ∧
+    U.value (transportAlong perm (concatVec xs)) =
+      ((List.range ps.length).map fun i => (ps.getD i default).value (vecOfList (xs.getD i []))).sum ∧
+    ∀ B, (∀ y, U.Feasible y → U.value y ≤ B) →
+      ((List.range ps.length).map fun i => (ps.getD i default).value (vecOfList (xs.getD i []))).sum ≤ B := by
+  obtain ⟨_, hwp, _, _⟩ := le_witness_parts U ps perm lams h
+  have hxB := concat_feasible ps hwp xs hlen hn hfeas
+  obtain ⟨h1, _, h3⟩ := split_le_witness_feasible U ps perm lams h (concatVec xs)
+  have hv := concat_value ps xs hlen hn
+  refine ⟨h1 hxB, by rw [← h3, hv], fun B hB => ?_⟩
+  rw [← hv]
+  exact split_le_unsplit U ps perm lams h B hB _ hxB
+
+/-- a true two-sided witness is a one-sided witness with unit multipliers — stated as: whatever the one-sided
+    theorems conclude also follows from `splitWitness` (feasibility transfer) -/
+theorem split_witness_implies_le (U : Problem) (ps : List Problem) (perm : List Nat)
+    (h : splitWitness U ps perm = true) (x : Vec) :
+    ((blockSum ps).Feasible x → U.Feasible (transportAlong perm x)) ∧
+    ((blockSum ps).FeasibleRelaxed x → U.FeasibleRelaxed (transportAlong perm x)) ∧
+    (blockSum ps).value x = U.value (transportAlong perm x) := by
+  obtain ⟨h1, h2, h3⟩ := split_witness_feasible U ps perm h x
+  exact ⟨h1.mp, h2.mp, h3⟩
+
+/-! ### non-vacuity: a storage with start level = end level over two intervals
+
+A market `m` (prices 1, 3, 1, 3) and a storage `s` (size 4, start level = end level = 1, dispatch in `[-1, 1]`,
+level after step `t` = `1 - Σ_{τ≤t} s_τ`) on one node, four steps, two intervals of two steps.  Unsplit variable
+order `m0..m3, s0..s3`, block sum `m0, m1, s0, s1 | m2, m3, s2, s3`.  The unsplit level rows are cumulative over
+the horizon (`-Σ_{τ≤t} s_τ ≤ 3` resp. `≥ -1`, and `= 0` at the end, written as a `U` and an `L` row as eaopack
+does); every interval has its own cumulative rows and its own end-level pair. -/
+section ExampleStorage
+private def exSPerm : List Nat := [0, 1, 4, 5, 2, 3, 6, 7]
+
+/-- unsplit problem with end level `e` (start level 1) -/
+private def exSUe (e : Rat) : Problem :=
+  { c := [1, 3, 1, 3, 0, 0, 0, 0], l := [-2, -2, -2, -2, -1, -1, -1, -1], u := [2, 2, 2, 2, 1, 1, 1, 1],
+    rows := [⟨[(4, -1)], 3, .U⟩, ⟨[(4, -1), (5, -1)], 3, .U⟩, ⟨[(4, -1), (5, -1), (6, -1)], 3, .U⟩,
+             ⟨[(4, -1), (5, -1), (6, -1), (7, -1)], e - 1, .U⟩,
+             ⟨[(4, -1)], -1, .L⟩, ⟨[(4, -1), (5, -1)], -1, .L⟩, ⟨[(4, -1), (5, -1), (6, -1)], -1, .L⟩,
+             ⟨[(4, -1), (5, -1), (6, -1), (7, -1)], e - 1, .L⟩,
+             ⟨[(0, 1), (4, 1)], 0, .N⟩, ⟨[(1, 1), (5, 1)], 0, .N⟩, ⟨[(2, 1), (6, 1)], 0, .N⟩,
+             ⟨[(3, 1), (7, 1)], 0, .N⟩],
+    mapping := [mr 0 "m" 0, mr 1 "m" 1, mr 2 "m" 2, mr 3 "m" 3, mr 4 "s" 0, mr 5 "s" 1, mr 6 "s" 2, mr 7 "s" 3],
+    nodal := [(0, "n"), (1, "n"), (2, "n"), (3, "n")] }
+
+/-- interval problem (steps `t0`, `t0 + 1`) with end level `e` -/
+private def exSPe (e : Rat) (t0 : Nat) : Problem :=
+  { c := [1, 3, 0, 0], l := [-2, -2, -1, -1], u := [2, 2, 1, 1],
+    rows := [⟨[(2, -1)], 3, .U⟩, ⟨[(2, -1), (3, -1)], e - 1, .U⟩,
+             ⟨[(2, -1)], -1, .L⟩, ⟨[(2, -1), (3, -1)], e - 1, .L⟩,
+             ⟨[(0, 1), (2, 1)], 0, .N⟩, ⟨[(1, 1), (3, 1)], 0, .N⟩],
+    mapping := [mr 0 "m" t0, mr 1 "m" (t0 + 1), mr 2 "s" t0, mr 3 "s" (t0 + 1)],
+    nodal := [(t0, "n"), (t0 + 1, "n")] }
+
+private def exSU : Problem := exSUe 1
+private def exSPs : List Problem := [exSPe 1 0, exSPe 1 2]
+
+/-- multiplier list over the 12 rows of the block sum: 1 at the positions `ks` -/
+private def pick (ks : List Nat) : List Rat := (List.range 12).map fun i => if ks.contains i then 1 else 0
+
+/-- the cumulative row at a step of the second interval = end-level row of the first interval + the second
+    interval's own cumulative row; rows of the first interval and the nodal rows occur verbatim (the level row at
+    the end of the first interval with a right-hand side that is even smaller) -/
+private def exSLams : List (List Rat) :=
+  [pick [0], pick [1], pick [1, 6], pick [1, 7], pick [2], pick [3], pick [3, 8], pick [3, 9],
+   pick [4], pick [5], pick [10], pick [11]]
+
+/-- the two problems are NOT the same: the level rows couple the intervals … -/
+example : splitWitness exSU exSPs exSPerm = false := by decide +kernel
+/-- … but every unsplit row follows from the interval rows with the multipliers given -/
+private theorem exSLe : splitLeWitness exSU exSPs exSPerm exSLams = true := by decide +kernel
+
+/-- a wrong multiplier (the first interval's end-level row forgotten) is rejected -/
+example : splitLeWitness exSU exSPs exSPerm
+    ([pick [0], pick [1], pick [6]] ++ exSLams.drop 3) = false := by decide +kernel
+/-- so is a multiplier of the wrong sign on an inequality row -/
+example : rowImplied ⟨[(0, 1)], 5, .U⟩ [⟨[(0, -1)], -5, .U⟩] [-1] = false ∧
+    rowImplied ⟨[(0, 1)], 5, .U⟩ [⟨[(0, -1)], -5, .L⟩] [-1] = true ∧
+    rowImplied ⟨[(0, 2)], 4, .S⟩ [⟨[(0, 1)], 2, .U⟩, ⟨[(0, 1)], 2, .L⟩] [2, 0, 0, 2] = true ∧
+    rowImplied ⟨[(0, 2)], 4, .S⟩ [⟨[(0, 1)], 2, .U⟩, ⟨[(0, 1)], 2, .L⟩] [2, 0] = false := by decide +kernel
+
+/-- interval solutions: buy and charge at price 1, discharge and sell at price 3 (value 2 per interval) -/
+private def exSXs : List (List Rat) := [[1, -1, -1, 1], [1, -1, -1, 1]]
+
+/-- the theorem at work: the concatenated split solution satisfies all restrictions of the unsplit problem (the
+    cumulative level rows on the original grid), is worth 2 + 2 there, and 4 is below every upper bound of the
+    unsplit values -/
+example : exSU.FeasibleRelaxed (transportAlong exSPerm (concatVec exSXs)) ∧
+    exSU.value (transportAlong exSPerm (concatVec exSXs)) = 4 ∧
+    ∀ B, (∀ y, exSU.FeasibleRelaxed y → exSU.value y ≤ B) → 4 ≤ B := by
+  obtain ⟨g1, g2, g3⟩ := split_solution_le_unsplit exSU exSPs exSPerm exSLams exSLe exSXs rfl
+    (by
+      intro i hi
+      match i, hi with
+      | 0, _ => rfl
+      | 1, _ => rfl)
+    (by
+      intro i hi
+      match i, hi with
+      | 0, _ => show (exSPe 1 0).FeasibleRelaxed (vecOfList [1, -1, -1, 1]); decide +kernel
+      | 1, _ => show (exSPe 1 2).FeasibleRelaxed (vecOfList [1, -1, -1, 1]); decide +kernel)
+  have hs : ((List.range exSPs.length).map fun i =>
+      (exSPs.getD i default).value (vecOfList (exSXs.getD i []))).sum = 4 := by decide +kernel
+  rw [hs] at g2 g3
+  exact ⟨g1, g2, g3⟩
+
+/-- **start level ≠ end level** (start 1, end 2): every interval raises the level by 1, the concatenation ends at
+    level 3, not 2 — NO multipliers can make the one-sided witness true (by the theorem: a split-feasible point
+    whose transport violates the unsplit end-level row) -/
+private def exSBad : Vec := vecOfList [1, 0, -1, 0, 1, 0, -1, 0]
+
+example (lams : List (List Rat)) : splitLeWitness (exSUe 2) [exSPe 2 0, exSPe 2 2] exSPerm lams = false := by
+  cases h : splitLeWitness (exSUe 2) [exSPe 2 0, exSPe 2 2] exSPerm lams with
+  | false => rfl
+  | true =>
+    exfalso
+    have hB : (blockSum [exSPe 2 0, exSPe 2 2]).FeasibleRelaxed exSBad := by decide +kernel
+    have hU := (split_le_witness_feasible _ _ _ _ h exSBad).2.1 hB
+    have hno : ¬ (exSUe 2).FeasibleRelaxed (transportAlong exSPerm exSBad) := by decide +kernel
+    exact hno hU
+end ExampleStorage
+
 end EAO.C14
